@@ -39,8 +39,9 @@ EXT = {'N': '.nii', 'P': '.img', 'M': '.mgh', 'A': '.img'}
 S_C09B = ('get_fdata() of an image whose cached array is the memory map of a plain file (float64 NIfTI) that a later '
           'save has overwritten with a shorter file: SIGBUS when the data exceed a page (silently different values '
           'otherwise); inherent to mmap; also reached through the SAME image after set_data_dtype + save onto its own file')
-S_C09C = ('after set_data_dtype(other width) and save onto the file the image was lazily loaded from, the image keeps its '
-          'old array proxy: later reads raise OSError (narrower dtype) or silently return garbage (wider dtype); the file '
+S_C09C = ('after a save onto the file the image was lazily loaded from that changes the on-disk dtype (set_data_dtype) or '
+          'the scale factors (a scaled integer file is re-scaled by the writer), the image keeps its old array proxy: later '
+          'reads raise OSError (narrower dtype) or silently return garbage (wider dtype / other slope, inter); the file '
           'written is correct')
 
 
@@ -155,6 +156,10 @@ CONFIGS = {
     # SPM2 Analyze triples (.img/.hdr/.mat): a.img has an oblique affine (only the .mat can hold it), b.img the
     # affine its header gives by itself; all names of the set belong to this class
     'spm': [path('a.img', 'A', (0, 'f8', 2)), path('b.img', 'A', (1, 'f8', 3)), path('c.img', 'A')],
+    # 1-D / 2-D volumes stored as int16 with slope 2, intercept 1 (MGHImage pads them to three axes by
+    # reshaping the proxy); predicate-only histories
+    'lowdim': [path('a.nii', 'N', (0, 'i2s', 0)), path('b.mgh', 'M'), path('c.nii', 'N')],
+    'lowdim-z': [path('a.nii', 'N', (0, 'i2s', 0)), path('b.mgz', 'M'), path('c.nii.gz', 'N')],
     # one file reached by several names: saving onto "another name" is saving onto the mapped file
     'nii-links': [path('a.nii', 'N', (0, 'f8', 0)), path('s.nii', 'N', link=('sym', 0)), path('h.nii', 'N', link=('hard', 0))],
     'nii-links2': [path('a.nii', 'N', (0, 'f4', 0)), path('h.nii', 'N', link=('hard', 0)), path('a.nii', 'N', link=('abs', 0))],
@@ -165,6 +170,8 @@ CONFIGS = {
     'mgh-links2': [path('a.mgh', 'M', (0, 'f4', 0)), path('a.mgh', 'M', link=('abs', 0)), path('b.mgh', 'M', (1, 'f4', 1))],
 }
 LINK_CONFIGS = [c for c in CONFIGS if 'links' in c]
+UNMODELLED = ('fault_int16', 'scaled_lowdim', 'refused_save')
+LOWDIM_SHAPES = [(24,), (4, 6), (4096,), (64, 64)]
 ARRAY_SLOT = dict(v=2, fmt='N', dt='f8', aff=2)
 ARRAY_SLOT_SPM = dict(v=2, fmt='A', dt='f8', aff=3)
 
@@ -320,6 +327,8 @@ def plan_cases(chk):
 
     first_loads = ['L00T', 'L00F', 'L01T']
     for cfgname in CONFIGS:
+        if cfgname.startswith('lowdim'):
+            continue
         for shape in (SMALL, BIG):
             if not thorough and cfgname in LINK_CONFIGS and (shape == SMALL or cfgname.endswith(('2', '3'))):
                 continue      # quick: three of the link name sets get the generic depth-3 core, on big data only
@@ -372,7 +381,7 @@ def plan_cases(chk):
         add('mgh', SMALL, [None, None], ['L00T', 'F0'], 3)
         add('nii-mixed', BIG, [None, None], ['L01T', 'F0', 'L10T'], 3)
     n_exh = len(plan)
-    names = list(CONFIGS)
+    names = [c for c in CONFIGS if not c.startswith('lowdim')]
     for _ in range(chk.n(1500, 20000)):
         cfgname = rng.choice(names)
         shape = rng.choice([SMALL, BIG, BIG, VECS[rng.randrange(3)]])
@@ -394,6 +403,20 @@ def plan_cases(chk):
         for ops in (['I1', 'X1', 'S11'], ['I1', 'X1', 'S10', 'S12'], ['I1', 'S12', 'X1', 'S11']):
             plan.append(('nii', shape, [None, ARRAY_SLOT], ops, 'fault_int16'))
             plan.append(('spm', shape, [None, ARRAY_SLOT_SPM], ops, 'fault_int16'))
+    # scaled 1-D / 2-D sources moved between formats (NIfTI -> MGH/MGZ -> NIfTI): decoded DATA compared
+    for cfgname in ('lowdim', 'lowdim-z'):
+        for shape in LOWDIM_SHAPES:
+            for ops in (['L00T', 'S01'], ['L00F', 'S01'], ['L00T', 'F0', 'S01', 'S02'], ['L00T', 'S01', 'L11T', 'S12', 'F1'],
+                        ['L00T', 'S02', 'L12T', 'S11'], ['L00T', 'S01', 'S00', 'F0']):
+                plan.append((cfgname, shape, [None, None], ops, 'scaled_lowdim'))
+    # saves the class must refuse (W<slot><path>: uint8 storage of mixed-sign data, SPM Analyze has no intercept)
+    # onto the image's own files and onto earlier valid images: nothing on disk may change
+    for shape in (SMALL, BIG):
+        for ops in (['L00T', 'W00'], ['L00F', 'W00', 'F0'], ['L00T', 'W01', 'L11T', 'F1'], ['L00T', 'F0', 'W00', 'F0', 'S02'],
+                    ['L01T', 'W00', 'W01', 'S02'], ['L00T', 'S02', 'W02', 'L12T', 'F1']):
+            plan.append(('spm', shape, [None, None], ops, 'refused_save'))
+        for ops in (['W10', 'S12'], ['W11', 'L01T', 'F0'], ['S12', 'W12', 'L02T', 'F0']):
+            plan.append(('spm', shape, [None, ARRAY_SLOT_SPM], ops, 'refused_save'))
     return plan, n_exh
 
 
@@ -409,7 +432,9 @@ def run(chk: Check):
                 'memory map), [L00T F0 L10T] and [L00F F0]; vector-like volumes (4096,1,1), (1,4096,1), (1,1,1,4096) with own-file '
                 'saves; SPM2 Analyze triples with an oblique and a header-derived affine saved onto the same names in '
                 'every order; saves that fail with ENOSPC (link to /dev/full) followed by healthy ones; the same with an '
-                'int16 on-disk dtype (predicate only, not modelled). Random: depth 4..10 over all 38 ops and 3 paths. A history is '
+                'int16 on-disk dtype, scaled int16 1-D / 2-D sources moved NIfTI -> MGH/MGZ -> NIfTI, and saves SPM Analyze must '
+                'refuse (uint8 storage of mixed-sign data) onto own and earlier files (these three families: predicate only, '
+                'not modelled). Random: depth 4..10 over all 38 ops and 3 paths. A history is '
                 'non-trivial when it contains at least one successful save; distinct by (configuration, size, history)')
     chk.assumptions = ['voxel values are small integers exact in float32/float64; every image of a history has the same '
                        'shape; on-disk dtypes float32/float64 only (integer dtypes would bring C02 scaling into play)',
@@ -435,7 +460,8 @@ def run(chk: Check):
                                    'conversions': ['%s->%s %s=>%s' % c for c in facts['conv']]}
     plan, n_exh = plan_cases(chk)
     chk.extra['exhaustive_core'] = {'histories': n_exh, 'alphabet': ALPHA}
-    jobs = [dict(id=k, shape=list(shape), paths=CONFIGS[cfgname], imgs=imgs, ops=ops)
+    jobs = [dict(id=k, shape=list(shape), paths=CONFIGS[cfgname], imgs=imgs, ops=ops, shift=10 if tag == 'refused_save' else 0,
+                 approx=tag in UNMODELLED)
             for k, (cfgname, shape, imgs, ops, tag) in enumerate(plan)]
     # interleave so that every child gets a mix (crashing histories are spread over the batches)
     nproc = int(os.environ.get('VERIF_C09_PROCS', '10' if chk.tier == 'quick' else '12'))
@@ -444,7 +470,7 @@ def run(chk: Check):
     chk.extra['timing_s'] = {'build_incl_lock_wait': round(t1 - t0, 1), 'probes': round(t2 - t1, 1),
                              'children': round(time.time() - t2, 1)}
     lines = [model_line(k, cfgname, shape, imgs, ops, facts) for k, (cfgname, shape, imgs, ops, tag) in enumerate(plan)
-             if tag != 'fault_int16']
+             if tag not in UNMODELLED]
     mod = run_model_parallel(PROP, lines, jobs=6)
 
     pv, cv = [], []
@@ -487,20 +513,21 @@ def run(chk: Check):
             else:
                 fails.append(f'the interpreter died at step {kc} ({ops[kc]}): {sig}')
         for kp, what, sig in r['pred']:
-            if what.startswith('unusable') and sig == 'own_file_dtype_changed':
+            if what.startswith('unusable') and sig in ('own_file_dtype_changed', 'own_file_scaling_changed'):
                 chk.known('S-C09c', S_C09C)
                 chk.tagc('known:S-C09c:' + what)
             else:
                 fails.append(f'step {kp} ({ops[kp]}): {what}')
         bad_other = [t for t in itoks if t.startswith('ref:other') or t.startswith('died:')]
-        if fails and tag != 'fault_int16':
+        if fails and tag not in UNMODELLED:
             pv.append((case, itoks, mtoks, '; '.join(fails)))
         # ---- correspondence (the integer-dtype fault histories are outside the model: predicate only)
-        if tag == 'fault_int16':
+        if tag in UNMODELLED:
+            want = {'fault_int16': ('ref:nospace', 'saved:'), 'scaled_lowdim': ('saved:',), 'refused_save': ('ref:writer',)}[tag]
             if fails:
                 pv.append((case, itoks, ['<not modelled>'], '; '.join(fails)))
-            elif not any(t == 'ref:nospace' for t in itoks) or not any(t.startswith('saved:') for t in itoks):
-                cv.append((case, itoks, ['<not modelled: expected a refused save and a successful one>']))
+            elif not all(any(t.startswith(w) for t in itoks) for w in want) or bad_other:
+                cv.append((case, itoks, ['<not modelled: expected ' + ' and '.join(want) + ' and no unexpected error>']))
             continue
         agree = len(mtoks) == len(itoks) and all(tok_match(m, i) for m, i in zip(mtoks, itoks))
         if not agree:
@@ -607,7 +634,9 @@ def replay(chk, obj):
         print('nothing to replay:', obj.get('predicate'))
         return 1
     facts = measure_facts(chk.workdir)
-    job = dict(id=0, shape=case['shape'], paths=CONFIGS[case['config']], imgs=case['imgs'], ops=case['ops'])
+    modelled = not any(t[0] in 'IW' for t in case['ops']) and not case['config'].startswith('lowdim')   # predicate only
+    job = dict(id=0, shape=case['shape'], paths=CONFIGS[case['config']], imgs=case['imgs'], ops=case['ops'],
+               shift=10 if any(t[0] == 'W' for t in case['ops']) else 0, approx=not modelled)
     impl, stats = run_children([job], chk.workdir, 1)
     r = impl['0']
     chk.build(gen_tables=gen_tables)
@@ -622,7 +651,7 @@ def replay(chk, obj):
     print('predicate lines:', r['pred'])
     import shutil
     shutil.rmtree(chk.workdir, ignore_errors=True)
-    modelled = not any(t[0] == 'I' for t in case['ops'])      # int16 fault histories: predicate only
+    modelled = not any(t[0] in 'IW' for t in case['ops']) and not case['config'].startswith('lowdim')   # predicate only
     bad = r['status'] == 'crashed' or bool(r['pred']) or (modelled and (len(mtoks) != len(itoks) or
                                                                           not all(tok_match(m, i) for m, i in zip(mtoks, itoks))))
     print('property/correspondence fails on this history' if bad else 'holds on this history')
